@@ -14,6 +14,8 @@ enum Op {
     Check { u: u16, v: u16 },
     Size { v: u16 },
     Reset { m: u8 },
+    /// `reset(m)` repeated MANY[k % 6] times on the same object (generation counters that wrap at 16 bits)
+    ResetMany { m: u8, k: u8 },
     CloneSwap,
     /// `d.clone_from(&frozen[k])`: continue from an earlier snapshot (possibly of another size)
     CloneFromFrozen { k: u8 },
@@ -24,6 +26,8 @@ struct Case {
     n: u8,
     ops: Vec<Op>,
 }
+
+const MANY: [u32; 6] = [65535, 65536, 65537, 131071, 131072, 196608];
 
 struct Model {
     label: Vec<usize>,
@@ -204,6 +208,16 @@ fn run_case(c: &Case) -> CaseResult {
                 unioned = true;
                 big_union = false;
             }
+            Op::ResetMany { m: k, k: times } => {
+                let k = (*k as usize % 64) + 1;
+                for _ in 0..MANY[*times as usize % MANY.len()] {
+                    d.reset(k);
+                }
+                m = Model::new(k);
+                unioned = true;
+                big_union = false;
+                st.label("reset-repeated-65535-or-more-times");
+            }
             Op::CloneFromFrozen { k } => {
                 if !frozen.is_empty() {
                     let k = *k as usize % frozen.len();
@@ -251,6 +265,7 @@ fn op() -> impl Strategy<Value = Op> {
         10 => (sel(), sel()).prop_map(|(u, v)| Op::Check { u, v }),
         10 => sel().prop_map(|v| Op::Size { v }),
         2 => any::<u8>().prop_map(|m| Op::Reset { m }),
+        1 => (any::<u8>(), 0u8..6).prop_map(|(m, k)| Op::ResetMany { m, k }),
         2 => Just(Op::CloneSwap),
         2 => any::<u8>().prop_map(|k| Op::CloneFromFrozen { k }),
     ]
@@ -410,7 +425,7 @@ fn run_pat(p: &Pat) -> CaseResult {
 fn real_main() {
     let mut ctx = Ctx::init("C05");
     ctx.rule(
-        "Cases are (a) histories over n<=64 of un / un-on-current-roots / par / check / size / reset(grow and shrink) / clone-and-continue, \
+        "Cases are (a) histories over n<=64 of un / un-on-current-roots / par / check / size / reset(grow and shrink; also repeated 65535..196608 times) / clone-and-continue, \
          interpreted against a naive label array; after every operation the whole parent forest is read through the read-only verif \
          hook: every root lies in its component, one root per component, stored size = cardinality, representatives unchanged unless a \
          union or reset happened, depth(v) <= floor(log2(component size)) for every v; frozen clones are re-checked against their snapshot \
@@ -425,6 +440,17 @@ fn real_main() {
     ctx.begin();
     ctx.prop_split("histories", "dsu-history", ctx.n(6_000, 150_000), ctx.parts(), case(ctx.n(80, 300) as usize).boxed(), run_case);
     ctx.prop("short-histories", "dsu-history", ctx.n(6_000, 100_000), case(10), run_case);
+    // counters that wrap: unions, then reset() 65535 .. 196608 times on the same object, then everything is looked at again
+    let mut many = Vec::new();
+    for n in [2u8, 3, 8, 33] {
+        for k in 0..6u8 {
+            for m in [n - 1, n, n + 4] {
+                many.push(Case { n, ops: vec![Op::Un { u: 0, v: 1 }, Op::Un { u: 2, v: 3 }, Op::ResetMany { m: m - 1, k }, Op::Size { v: 0 }, Op::Check { u: 0, v: 1 }, Op::Un { u: 1, v: 2 }, Op::Size { v: 1 }] });
+                many.push(Case { n, ops: vec![Op::Un { u: 0, v: 1 }, Op::Reset { m: n + 7 }, Op::Un { u: 0, v: u16::MAX }, Op::ResetMany { m: m - 1, k }, Op::Par { v: 0 }, Op::Par { v: u16::MAX }, Op::Size { v: u16::MAX }] });
+            }
+        }
+    }
+    ctx.exhaustive("reset-repeated-many-times", "dsu-history", "n in {2,3,8,33} x {65535, 65536, 65537, 131071, 131072, 196608} resets (same size, smaller, larger) after unions", false, many, run_case);
     let stages: Vec<(u32, u64)> = if ctx.thorough() {
         vec![(100, 20), (1_000, 20), (10_000, 10), (100_000, 6), (1_000_000, 2)]
     } else {
